@@ -857,6 +857,39 @@ def sk_match_locals(run, R="SK"):
     run.check(len(ins) >= 2 and not bad and kinds == {"nested", "expr"}, R, "SK|match|locals-known", f.loc(),
               "get_match_statically_known: every parameter is declared to the rule body with the answer of the static analysis of its own argument, whatever the answer (%d site(s))" % len(ins),
               "get_match_statically_known: %s (answers used: %s): a rule body using an operand whose value depends on labels would be frozen after the first pass" % ("; ".join(bad) or "insertions not found", sorted(kinds)))
+    # (d) the arguments are analysed without the rule's parameters in scope (they are written where the instruction stands); the
+    #     rule body is analysed with them
+    def provider_of(op):
+        o = f.origin_op(op)
+        n_ = 0
+        while o is not None and n_ < 8:
+            n_ += 1
+            if o[0] in ("ref", "cast", "place"):
+                o = o[1]
+            elif o[0] == "call" and (o[1].get("resolved") or o[1].get("callee") or "").endswith("StaticallyKnownProvider::<'a>::new"):
+                return o[1]["dest"]["l"]
+            elif o[0] == "multi":
+                return ("multi", o[1])
+            else:
+                return None
+        return None
+    with_params = set(provider_of(t["args"][0]) for bi, t in ins)
+    badd = []
+    n_body = 0
+    for ab, at, k, bt in answers:
+        if k != "expr":
+            continue
+        pv = provider_of(at["args"][1]) if len(at["args"]) > 1 else None
+        ex = deep(f, at["args"][0], 6)
+        is_body = ".expr" in ex and ".args" not in ex
+        if is_body:
+            n_body += 1
+            if pv not in with_params:
+                badd.append("%s: the rule body is analysed without its parameters declared" % f.loc(at["span"]))
+        elif pv in with_params or pv is None:
+            badd.append("%s: an argument is analysed with the rule's parameters in scope: a name in the argument (a label `x` of the program) would be taken for the parameter `x`" % f.loc(at["span"]))
+    run.check(n_body == 1 and not badd, R, "SK|match|argument-scope", f.loc(), "arguments are analysed in a scope without the rule's parameters, the rule body in the scope that declares them",
+              "get_match_statically_known: %s: an instruction whose argument depends on a label would be frozen after the first pass" % ("; ".join(badd) or "the analysis of the rule body was not found"))
     # (c) `$` / `pc`
     okc, whyc = False, "no variable-query callback found"
     for bi, si, st in f.stmts():
